@@ -171,3 +171,31 @@ def feed_history(case, ctx):
         s = _rf.snapshot(det, d)
         if len(chunks) >= 2 and (s["values_from"] or len(s["residuals"]) >= 3):
             ctx.nontrivial()
+
+
+def decode_bytes(data, tier=None):
+    """Fuzzer bytes -> case.  Byte 0 selects the value alphabet; every further byte is one sample (low 5 bits)
+    with bit 7 meaning 'cut after this sample'."""
+    if len(data) < 2:
+        return None
+    mode = data[0] % 3
+    sig, cuts = [], []
+    for b in data[1:201]:
+        v = b & 0x1F
+        if mode == 0:
+            x = float(v % 5 - 2)
+        elif mode == 1:
+            x = float(v % 17 - 8)
+        else:
+            x = (v - 16) / 8.0
+        sig.append(x)
+        if b & 0x80:
+            cuts.append(len(sig))
+    cuts = [c for c in cuts if c < len(sig)]
+    return {"signal": sig, "cuts": cuts}
+
+
+@subcheck("C01", "chunked_fuzz", fuzz=decode_bytes, quick=0, thorough=400000, crash_guard=True,
+          doc="coverage-guided (atheris/libFuzzer, pylife.stress.rainflow instrumented): bytes -> (signal, cuts); same oracle as chunked_random")
+def chunked_fuzz(case, ctx):
+    check_chunked(case["signal"], case["cuts"], ctx)
